@@ -1,11 +1,20 @@
 package centrifuge
 
 import (
+	"bufio"
+	"context"
+	"fmt"
+	"io"
 	"math/rand"
+	"net"
+	"strconv"
 	"strings"
+	"sync"
 	"testing"
+	"time"
 
 	"github.com/centrifugal/centrifuge/internal/redispartition"
+	"github.com/redis/rueidis"
 )
 
 // C34 driver: the real key / PUB/SUB channel builders of RedisBroker, RedisPresenceManager and
@@ -69,7 +78,7 @@ func c34Run(t *testing.T, cf c34Cfg, ch, ik string) (term string, js map[string]
 	if cf.Cluster == (cf.Parts > 0) {
 		mmsg := mb.messageChannelID(shard, ch)
 		mapKeys = []string{mmsg, mb.streamKey(shard, ch), mb.metaKey(shard, ch), mb.stateHashKey(shard, ch),
-			mb.stateOrderKey(shard, ch), mb.stateExpireKey(shard, ch), mb.stateMetaKey(shard, ch),
+			mb.stateOrderKey(shard, ch), mb.stateExpireKey(shard, ch), mb.stateMetaKey(shard, ch), mb.buildKey(shard, ch, ":nil:"),
 			mb.resultCacheKey(shard, ch, ik), mb.cleanupRegistrationKeyForChannel(shard, ch)}
 		mext = mb.extractChannel(mmsg)
 	}
@@ -81,11 +90,301 @@ func c34Run(t *testing.T, cf c34Cfg, ch, ik string) (term string, js map[string]
 		slotsJS = append(slotsJS, s)
 	}
 	cfgTerm := vApp("mkCfg", vStr(cf.Prefix), vBool(cf.Cluster), vN(uint64(cf.Parts)), vBool(cf.Lists))
-	term = vApp("mkCase", cfgTerm, vBool(cf.Precomp), vStr(ch), vN(uint64(idx)), vStr(tag), vStr(ik),
-		c34List(broker), c34List(presence), c34List(mapKeys), vStr(bext), vStr(mext), vList(slots))
+	term = vApp("KBuild", vApp("mkCase", cfgTerm, vBool(cf.Precomp), vStr(ch), vN(uint64(idx)), vStr(tag), vStr(ik),
+		c34List(broker), c34List(presence), c34List(mapKeys), vStr(bext), vStr(mext), vList(slots)))
 	js = map[string]any{"cfg": cf, "channel": ch, "channel_bytes": []byte(ch), "idempotency_key": ik, "idx": idx, "tag": tag,
 		"broker": broker, "presence": presence, "map": mapKeys, "broker_extract": bext, "map_extract": mext, "slots": slotsJS}
 	return term, js
+}
+
+// ---- real script calls, captured by a fake RESP server (no Redis here) ----
+
+// c34FakeRedis answers the rueidis handshake and records every EVALSHA / EVAL command, replying with an
+// error so that the caller returns at once: only the KEYS and ARGV the real code assembled are observed.
+type c34FakeRedis struct {
+	ln    net.Listener
+	mu    sync.Mutex
+	evals [][]string
+}
+
+func c34StartFakeRedis(t *testing.T) *c34FakeRedis {
+	ln, err := net.Listen("tcp", "127.0.0.1:0")
+	if err != nil {
+		t.Fatal(err)
+	}
+	f := &c34FakeRedis{ln: ln}
+	t.Cleanup(func() { _ = ln.Close() })
+	go func() {
+		for {
+			c, err := ln.Accept()
+			if err != nil {
+				return
+			}
+			go f.serve(c)
+		}
+	}()
+	return f
+}
+
+func c34ReadCommand(br *bufio.Reader) ([]string, error) {
+	line, err := br.ReadString('\n')
+	if err != nil {
+		return nil, err
+	}
+	line = strings.TrimRight(line, "\r\n")
+	if len(line) == 0 || line[0] != '*' {
+		return nil, fmt.Errorf("unexpected request line %q", line)
+	}
+	n, err := strconv.Atoi(line[1:])
+	if err != nil {
+		return nil, err
+	}
+	args := make([]string, 0, n)
+	for i := 0; i < n; i++ {
+		hdr, err := br.ReadString('\n')
+		if err != nil {
+			return nil, err
+		}
+		hdr = strings.TrimRight(hdr, "\r\n")
+		if len(hdr) == 0 || hdr[0] != '$' {
+			return nil, fmt.Errorf("unexpected bulk header %q", hdr)
+		}
+		l, err := strconv.Atoi(hdr[1:])
+		if err != nil {
+			return nil, err
+		}
+		buf := make([]byte, l+2)
+		if _, err := io.ReadFull(br, buf); err != nil {
+			return nil, err
+		}
+		args = append(args, string(buf[:l]))
+	}
+	return args, nil
+}
+
+func (f *c34FakeRedis) serve(c net.Conn) {
+	defer func() { _ = c.Close() }()
+	br := bufio.NewReader(c)
+	for {
+		args, err := c34ReadCommand(br)
+		if err != nil {
+			return
+		}
+		var reply string
+		switch strings.ToUpper(args[0]) {
+		case "HELLO":
+			reply = "%2\r\n+proto\r\n:3\r\n+version\r\n+7.2.0\r\n"
+		case "PING":
+			reply = "+PONG\r\n"
+		case "EVALSHA", "EVAL":
+			f.mu.Lock()
+			f.evals = append(f.evals, args)
+			f.mu.Unlock()
+			reply = "-ERR c34: script execution is not emulated\r\n"
+		default:
+			reply = "+OK\r\n"
+		}
+		if _, err := c.Write([]byte(reply)); err != nil {
+			return
+		}
+	}
+}
+
+func (f *c34FakeRedis) takeEvals() [][]string {
+	f.mu.Lock()
+	defer f.mu.Unlock()
+	e := f.evals
+	f.evals = nil
+	return e
+}
+
+type c34Env struct {
+	fake    *c34FakeRedis
+	client  rueidis.Client
+	node    *Node
+	mapOpts MapChannelOptions // what GetMapChannelOptions returns for the current case
+}
+
+func c34NewEnv(t *testing.T) *c34Env {
+	env := &c34Env{fake: c34StartFakeRedis(t)}
+	client, err := rueidis.NewClient(rueidis.ClientOption{
+		InitAddress:       []string{env.fake.ln.Addr().String()},
+		DisableCache:      true,
+		DisableRetry:      true,
+		ForceSingleClient: true,
+		ConnWriteTimeout:  10 * time.Second,
+	})
+	if err != nil {
+		t.Fatal(err)
+	}
+	t.Cleanup(client.Close)
+	env.client = client
+	node, err := New(Config{
+		LogLevel:   LogLevelNone,
+		LogHandler: func(LogEntry) {},
+		Map: MapConfig{GetMapChannelOptions: func(string) MapChannelOptions { return env.mapOpts }},
+	})
+	if err != nil {
+		t.Fatal(err)
+	}
+	t.Cleanup(func() { _ = node.Shutdown(context.Background()) })
+	env.node = node
+	return env
+}
+
+var c34OpNames = []string{
+	"broker.publish+history", "broker.publish+history+idempotency", "broker.publish-idempotent", "broker.history",
+	"presence.add", "presence.remove", "presence.get", "presence.stats",
+	"map.publish", "map.remove",
+}
+
+// c34Call performs ONE real operation and returns the single script call it made.
+// chanArg is the ARGV index of the PUB/SUB channel the script publishes to (-1: the script has none).
+func c34Call(t *testing.T, env *c34Env, cf c34Cfg, op int, variant int, ch, ik string) (term string, js map[string]any, ok bool) {
+	var tags []string
+	if cf.Precomp {
+		tags, _ = redispartition.FindTags(cf.Parts)
+	}
+	shard := &RedisShard{isCluster: cf.Cluster, client: env.client}
+	comp, chanArg := 0, -1
+	desc := c34OpNames[op]
+	env.fake.takeEvals()
+	switch {
+	case op <= 3:
+		b := &RedisBroker{
+			node:                    env.node,
+			config:                  RedisBrokerConfig{Prefix: cf.Prefix, NumShardedPubSubPartitions: cf.Parts, UseLists: cf.Lists},
+			shards:                  []*shardWrapper{{shard: shard}},
+			partitionTags:           tags,
+			publishIdempotentScript: rueidis.NewLuaScript(publishIdempotentSource),
+			historyListScript:       rueidis.NewLuaScript(historyListSource),
+			historyStreamScript:     rueidis.NewLuaScript(historyStreamSource),
+			addHistoryListScript:    rueidis.NewLuaScript(addHistoryListSource),
+			addHistoryStreamScript:  rueidis.NewLuaScript(addHistoryStreamSource),
+			messagePrefix:           cf.Prefix + redisClientChannelPrefix,
+		}
+		switch op {
+		case 0:
+			ik = ""
+			_, _ = b.publish(b.shards[0], ch, []byte("{}"), PublishOptions{HistorySize: 10, HistoryTTL: time.Minute})
+			chanArg = 3
+		case 1:
+			if ik == "" {
+				ik = "idem"
+			}
+			_, _ = b.publish(b.shards[0], ch, []byte("{}"), PublishOptions{HistorySize: 10, HistoryTTL: time.Minute, IdempotencyKey: ik})
+			chanArg = 3
+		case 2:
+			if ik == "" {
+				ik = "idem"
+			}
+			_, _ = b.publish(b.shards[0], ch, []byte("{}"), PublishOptions{IdempotencyKey: ik})
+			chanArg = 1
+		case 3:
+			if cf.Lists {
+				_, _, _ = b.historyList(shard, ch, HistoryFilter{Limit: -1})
+			} else {
+				_, _, _ = b.historyStream(shard, ch, HistoryOptions{Filter: HistoryFilter{Limit: -1}})
+			}
+		}
+	case op <= 7:
+		comp = 1
+		m := &RedisPresenceManager{
+			node:                env.node,
+			config:              RedisPresenceManagerConfig{Prefix: cf.Prefix, PresenceTTL: time.Minute},
+			shards:              []*RedisShard{shard},
+			addPresenceScript:   rueidis.NewLuaScript(addPresenceScriptSource),
+			remPresenceScript:   rueidis.NewLuaScript(remPresenceScriptSource),
+			presenceScript:      rueidis.NewLuaScript(presenceScriptSource),
+			presenceStatsScript: rueidis.NewLuaScript(presenceStatsScriptSource),
+		}
+		switch op {
+		case 4:
+			_ = m.addPresence(shard, ch, "client1", &ClientInfo{ClientID: "client1", UserID: "u1"})
+		case 5:
+			_ = m.removePresence(shard, ch, "client1", "u1")
+		case 6:
+			_, _ = m.presence(shard, ch)
+		case 7:
+			_, _ = m.presenceStats(shard, ch)
+		}
+	default:
+		comp = 2
+		if cf.Cluster != (cf.Parts > 0) {
+			return "", nil, false // NewRedisMapBroker rejects the configuration
+		}
+		modes := []MapChannelOptions{
+			{Mode: MapModeEphemeral, KeyTTL: time.Minute},
+			{Mode: MapModeRecoverable, KeyTTL: time.Minute},
+			{Mode: MapModePersistent},
+			{Mode: MapModePersistent, ordered: true},
+			{Mode: MapModeRecoverable, KeyTTL: time.Minute, ordered: true},
+		}
+		env.mapOpts = modes[variant%len(modes)]
+		key := "k1"
+		if (variant/len(modes))%3 == 0 && !env.mapOpts.Mode.IsEphemeral() && op == 8 {
+			key = "" // unkeyed publication into a channel with a stream
+		}
+		desc += fmt.Sprintf("/mode%d/key=%q", variant%len(modes), key)
+		e := &RedisMapBroker{
+			node:          env.node,
+			conf:          RedisMapBrokerConfig{Prefix: cf.Prefix, NumShardedPubSubPartitions: cf.Parts},
+			shards:        []*brokerShardWrapper{{shard: shard}},
+			partitionTags: tags,
+			addScript:     rueidis.NewLuaScript(brokerStatePublishScriptSource),
+			closeCh:       make(chan struct{}),
+			messagePrefix: cf.Prefix + redisClientChannelPrefix,
+		}
+		if op == 8 {
+			_, _ = e.Publish(context.Background(), ch, key, MapPublishOptions{Data: []byte("{}"), IdempotencyKey: ik})
+		} else {
+			_, _ = e.Remove(context.Background(), ch, key, MapRemoveOptions{IdempotencyKey: ik})
+		}
+		chanArg = 4
+	}
+	evals := env.fake.takeEvals()
+	if len(evals) != 1 {
+		t.Fatalf("%s on channel %q: expected exactly one script call, got %d", desc, ch, len(evals))
+	}
+	args := evals[0]
+	numKeys, err := strconv.Atoi(args[2])
+	if err != nil || 3+numKeys > len(args) {
+		t.Fatalf("%s: malformed EVALSHA %q", desc, args[:3])
+	}
+	keys := args[3 : 3+numKeys]
+	argv := args[3+numKeys:]
+	idx, tag := 0, ""
+	if cf.Parts > 0 {
+		idx = consistentIndex(ch, cf.Parts)
+		if tags != nil {
+			tag = tags[idx]
+		} else {
+			tag = strconv.Itoa(idx)
+		}
+	}
+	chanTerm, strs := "None", append([]string{}, keys...)
+	var pubsub any
+	if chanArg >= 0 {
+		if chanArg >= len(argv) {
+			t.Fatalf("%s: ARGV too short", desc)
+		}
+		chanTerm = vOpt(vStr(argv[chanArg]), true)
+		strs = append(strs, argv[chanArg])
+		pubsub = argv[chanArg]
+	}
+	var slots []string
+	var slotsJS []uint16
+	for _, k := range strs {
+		sl := redisSlot(k)
+		slots = append(slots, vN(uint64(sl)))
+		slotsJS = append(slotsJS, sl)
+	}
+	cfgTerm := vApp("mkCfg", vStr(cf.Prefix), vBool(cf.Cluster), vN(uint64(cf.Parts)), vBool(cf.Lists))
+	term = vApp("KCall", vApp("mkCall", cfgTerm, vBool(cf.Precomp), vN(uint64(comp)), vStr(ch), vN(uint64(idx)), vStr(tag), vStr(ik),
+		c34List(keys), chanTerm, vList(slots)))
+	js = map[string]any{"cfg": cf, "operation": desc, "channel": ch, "channel_bytes": []byte(ch), "idempotency_key": ik,
+		"idx": idx, "tag": tag, "KEYS": keys, "pubsub_channel": pubsub, "slots": slotsJS}
+	return term, js, true
 }
 
 func c34Channel(r *rand.Rand) string {
@@ -106,6 +405,7 @@ func TestVerifC34(t *testing.T) {
 	w := verifOpen(t, "C34")
 	defer w.Close()
 	sizes := redispartition.PrecomputedSizes()
+	env := c34NewEnv(t)
 	type fx struct {
 		cf     c34Cfg
 		ch, ik string
@@ -173,7 +473,29 @@ func TestVerifC34(t *testing.T) {
 				}
 			}
 		}
-		term, js := c34Run(t, cf, ch, ik)
+		var term string
+		var js map[string]any
+		isCall := false
+		if i >= len(corpus) && (i < len(corpus)+200 || r.Intn(5) < 2) {
+			// a real script call: the first 200 indexes after the corpus sweep operations x variants systematically
+			op, variant := r.Intn(len(c34OpNames)), r.Intn(15)
+			if i < len(corpus)+200 {
+				k := i - len(corpus)
+				op, variant = k%len(c34OpNames), k/len(c34OpNames)
+				if op >= 8 { // map broker: make the configuration acceptable so that every variant is exercised
+					if cf.Cluster && cf.Parts == 0 {
+						cf.Parts = 16
+					}
+				}
+			}
+			term, js, isCall = c34Call(t, env, cf, op, variant, ch, ik)
+			if isCall {
+				class = "call/" + c34OpNames[op] + "/" + class
+			}
+		}
+		if !isCall {
+			term, js = c34Run(t, cf, ch, ik)
+		}
 		if cf.Cluster && (ch == "" || ch[0] == '}') {
 			js["key"] = "emptytag-nonpartitioned"
 			class += "/emptytag"
